@@ -265,6 +265,9 @@ func findRenames(pkgs []*packages.Package, base *Baseline) []renameEdit {
 						}
 					}
 					if !same {
+						// the fields were also regrouped: names present on both sides are the same fields; the remaining
+						// ones are paired per type in their relative order, provided each type has as many on either side
+						out = append(out, regroupedRenames(pk, ts, st, was)...)
 						continue
 					}
 					i := 0
@@ -418,4 +421,63 @@ func jaccard(a, b []string) float64 {
 		}
 	}
 	return float64(n) / float64(len(a)+len(b)-n)
+}
+
+// regroupedRenames handles a struct whose fields were reordered and partly renamed in one edit.
+func regroupedRenames(pk *packages.Package, ts *ast.TypeSpec, st *ast.StructType, was []string) []renameEdit {
+	type fld struct {
+		name, typ string
+		id        *ast.Ident
+	}
+	var cur []fld
+	for _, fl := range st.Fields.List {
+		t := types.ExprString(fl.Type)
+		for _, n := range fl.Names {
+			cur = append(cur, fld{n.Name, t, n})
+		}
+	}
+	var old []fld
+	for _, w := range was {
+		i := strings.Index(w, ":")
+		if i <= 0 {
+			continue // embedded
+		}
+		old = append(old, fld{w[:i], w[i+1:], nil})
+	}
+	curNames, oldNames := map[string]bool{}, map[string]bool{}
+	for _, f := range cur {
+		curNames[f.name] = true
+	}
+	for _, f := range old {
+		oldNames[f.name] = true
+	}
+	goneByType, newByType := map[string][]fld{}, map[string][]fld{}
+	for _, f := range old {
+		if !curNames[f.name] {
+			goneByType[f.typ] = append(goneByType[f.typ], f)
+		}
+	}
+	for _, f := range cur {
+		if !oldNames[f.name] {
+			newByType[f.typ] = append(newByType[f.typ], f)
+		}
+	}
+	var out []renameEdit
+	for t, gone := range goneByType {
+		fresh := newByType[t]
+		if len(fresh) != len(gone) {
+			return nil // fields added or removed as well: not a pure rename
+		}
+		for i := range gone {
+			if obj := pk.TypesInfo.Defs[fresh[i].id]; obj != nil {
+				out = append(out, renameEdit{obj, gone[i].name, fmt.Sprintf("field %s.%s is treated as the renamed %s (same type; fields regrouped, paired in order)", ts.Name.Name, fresh[i].name, gone[i].name)})
+			}
+		}
+	}
+	for t := range newByType {
+		if len(goneByType[t]) != len(newByType[t]) {
+			return nil
+		}
+	}
+	return out
 }
